@@ -342,6 +342,9 @@ type wireResult struct {
 	MaxErr                error
 	GotMax                *classad.ClassAd
 	RawBytesSame          bool // PutClassAdRawBytes wrote the bytes PutClassAdRaw wrote
+	BodyOK                bool // GetInt + GetClassAdRawBody
+	BodyErr               error
+	BodyText              string
 }
 
 func pad(k int, s string) string {
@@ -470,6 +473,15 @@ func runWire(w wire) (*wireResult, error) {
 		res.RawText = t
 		return err
 	})
+	res.BodyOK, res.BodyErr = recv(func(rm *message.Message) error {
+		n, err := rm.GetInt(ctx)
+		if err != nil {
+			return err
+		}
+		t, err := rm.GetClassAdRawBody(ctx, n)
+		res.BodyText = t
+		return err
+	})
 	res.GetOK, res.GetErr = recv(func(rm *message.Message) error {
 		ad, err := rm.GetClassAd(ctx)
 		res.Got = ad
@@ -566,10 +578,18 @@ func wireOracle(w wire, res *wireResult) (key, msg string) {
 		return "attribute-count", fmt.Sprintf("received %d attributes, expected %d", len(res.Got.GetAttributes()), len(expected))
 	}
 	if w.Opts&1 == 0 || w.Raw || w.Man {
-		if s, _ := res.Got.EvaluateAttrString("MyType"); s != res.MyType {
+		bodyHas := func(n string) bool {
+			for _, x := range res.Names {
+				if strings.EqualFold(x, n) {
+					return true
+				}
+			}
+			return false
+		}
+		if s, _ := res.Got.EvaluateAttrString("MyType"); s != res.MyType && !(res.MyType == "" && bodyHas("MyType")) {
 			return "mytype-differs", fmt.Sprintf("MyType received %q, sent %q", s, res.MyType)
 		}
-		if s, _ := res.Got.EvaluateAttrString("TargetType"); s != res.TargetType {
+		if s, _ := res.Got.EvaluateAttrString("TargetType"); s != res.TargetType && !(res.TargetType == "" && bodyHas("TargetType")) {
 			return "targettype-differs", fmt.Sprintf("TargetType received %q, sent %q", s, res.TargetType)
 		}
 	}
@@ -594,6 +614,22 @@ func wireOracle(w wire, res *wireResult) (key, msg string) {
 	}
 	if !strings.HasPrefix(res.RawText, wantRaw) {
 		return "raw-text-differs", fmt.Sprintf("GetClassAdRaw returned %q, sender rendered %q", trunc(res.RawText), trunc(wantRaw))
+	}
+	// ... followed by exactly the type names that travelled in the two type slots
+	wantTypes := ""
+	if w.Opts&1 == 0 || w.Raw || w.Man {
+		if res.MyType != "" {
+			wantTypes += fmt.Sprintf("MyType = %q\n", res.MyType)
+		}
+		if res.TargetType != "" {
+			wantTypes += fmt.Sprintf("TargetType = %q\n", res.TargetType)
+		}
+	}
+	if got := res.RawText[len(wantRaw):]; got != wantTypes {
+		return "raw-types-differ", fmt.Sprintf("GetClassAdRaw renders the type slots (MyType %q, TargetType %q) as %q, expected %q", res.MyType, res.TargetType, got, wantTypes)
+	}
+	if !res.BodyOK || res.BodyText != res.RawText {
+		return "raw-body-differs", fmt.Sprintf("GetInt + GetClassAdRawBody returns %q (%v), GetClassAdRaw %q", trunc(res.BodyText), res.BodyErr, trunc(res.RawText))
 	}
 	return "", ""
 }
@@ -906,7 +942,7 @@ func genExpr(c *core.Ctx, depth int) string {
 func genAttrs(c *core.Ctx, n int, literalBias bool) []wattr {
 	var out []wattr
 	used := map[string]bool{"mytype": true, "targettype": true}
-	names := []string{"Name", "Cpus", "Memory", "Requirements", "Rank", "Owner", "Arch", "OpSys", "Disk", "State", "Activity", "LoadAvg", "KFlops", "Start", "x", "Y_2", "_z", "ClaimId", "_condor_privX", "JobUniverse", "Args", "Env", "Cmd", "Iwd", "ZKMa", "ZK", "Zeta", "zkm"}
+	names := []string{"Name", "Cpus", "Memory", "Requirements", "Rank", "Owner", "Arch", "OpSys", "Disk", "State", "Activity", "LoadAvg", "KFlops", "Start", "x", "Y_2", "_z", "ClaimId", "_condor_privX", "JobUniverse", "Args", "Env", "Cmd", "Iwd", "ZKMa", "ZK", "Zeta", "zkm", "MyTypeVersion", "TargetTypeHint", "mytypes", "XMyType", "TargetTyp", "MYTYPE_2"}
 	for len(out) < n {
 		nm := names[c.Rng.Intn(len(names))]
 		if c.Rng.Intn(6) == 0 {
@@ -1153,6 +1189,26 @@ func gen(c *core.Ctx) error {
 		if err := wireCase(c, wire{Kind: "wire", Raw: true, Pad: p, My: "Job", Attrs: []wattr{
 			{"Args", `"--mode = fast"`}, {"Req", `(Cpus == 1) && (Arch =?= "x = y")`}, {"Env", `strcat("k = ", "v")`},
 			{"Nested", `[ p = 1; q = "r = s" ]`}, {"N", "42"}, {"S", `"a=b"`}, {"L", `{ "a = b", 2 }`}, {"T", `x =!= undefined`}}}); err != nil {
+			return err
+		}
+	}
+	// attribute names that merely resemble MyType / TargetType (prefix, suffix, other case), with the
+	// type names in the slots only, in the body only, in both, or absent; every sender
+	typeish := []wattr{{"MyTypeVersion", "3"}, {"TargetTypeHint", `"Job"`}, {"mytypes", `{ "a", "b" }`}, {"XMyType", `"x"`}, {"TargetTyp", "1.5"}, {"MYTYPE_2", "true"}, {"Cpus", "4"}}
+	for i, tt := range [][2]string{{"Machine", "Job"}, {"Machine", ""}, {"", "Job"}, {"", ""}} {
+		for _, mode := range []string{"raw", "man", "ad"} {
+			w := wire{Kind: "wire", Attrs: append([]wattr(nil), typeish[i%2:]...), My: tt[0], Tg: tt[1], Raw: mode == "raw", Man: mode == "man", Pad: i}
+			if err := wireCase(c, w); err != nil {
+				return err
+			}
+		}
+	}
+	for _, w := range []wire{
+		{Kind: "wire", Raw: true, Pad: 0, Attrs: []wattr{{"MyType", `"Job"`}, {"Cpus", "1"}}, My: "", Tg: ""},
+		{Kind: "wire", Raw: true, Pad: 3, Attrs: []wattr{{"Cpus", "1"}, {"mytype", `"Job"`}, {"TARGETTYPE", `"Machine"`}}, My: "Job", Tg: "Machine"},
+		{Kind: "wire", Man: true, Attrs: []wattr{{"TargetTypeHint", "1"}, {"ClaimId", `"s3cr3t-mytype"`}, {"MyTypeVersion", "2"}}, My: "Machine", Tg: "Job"},
+	} {
+		if err := wireCase(c, w); err != nil {
 			return err
 		}
 	}
